@@ -305,7 +305,12 @@ def dataset_like(sample_dataset: xarray.Dataset, new_dataset: xarray.Dataset) ->
     _update_no_clobber(sample_dataset.encoding, like_dataset.encoding)
     for key, sample_variable in sample_dataset.variables.items():
         new_variable = like_dataset.variables[key]
-        _update_no_clobber(sample_variable.attrs, new_variable.attrs)
+        # What the new variable holds as an encoding, such as a _FillValue that
+        # was decoded on the way, can not also be an attribute when saving
+        _update_no_clobber({
+            name: value for name, value in sample_variable.attrs.items()
+            if name not in new_variable.encoding
+        }, new_variable.attrs)
         _update_no_clobber(sample_variable.encoding, new_variable.encoding)
 
     # Done!
